@@ -785,11 +785,7 @@ func (s *PrintCtx) AddPrefixedString(prefix, name string, value string) {
 	s.pcAppendStringKeyPrefixed(name, prefix)
 	s.pcAppendColon()
 	// s.pcAppendStringValue(intToString(value))
-	if s.noColor {
-		s.pcAppendQuotedStringValue(value)
-	} else {
-		s.pcAppendString(value)
-	}
+	s.pcAppendQuotedStringValue(value)
 }
 
 func (s *PrintCtx) AppendRune(value rune) {
